@@ -10,7 +10,8 @@ import progs  # noqa: E402
 
 FEATURES = {'weights': {'define': 6, 'call': 6, 'assign': 5, 'print': 5, 'action': 1, 'setreg': 1,
                         'repeat': 3, 'if': 3, 'wait': 0, 'units': 0, 'timeat': 0, 'macro': 0, 'get': 0},
-            'recursion': True, 'shadow': 0.8, 'zones': False, 'matrix': False, 'default': False}
+            'recursion': True, 'shadow': 0.8, 'zones': False, 'matrix': False, 'default': False,
+            'none_values': True}
 
 
 def num(v):
@@ -54,6 +55,12 @@ def corpus():
                 ('define', 'add2', ['x', 'y'], [('return', ('expr', ('bin', '+', v('x'), v('y'))))]),
                 P(('call', 'add2', [('call', 'sq', [num(3)]), ('call', 'add2', [('call', 'sq', [num(2)]), num(1)])])),
                 P(('expr', ('bin', '-', ('call', 'sq', [num(5)]), ('call', 'sq', [('call', 'add2', [num(1), num(1)])]))))])
+    # a parameter holding "nothing" (the result of a bare return) still hides the global
+    out.append([('assign', 'x', num(100)), ('define', 'nothing', [], [('return', None)]),
+                ('define', 'g', ['x'], [P(v('x')), ('return', v('x'))]),
+                ('println', ('call', 'g', [('call', 'nothing', [])])),
+                ('define', 'h', ['x'], [('assign', 'x', ('call', 'nothing', [])), P(v('x'))]),
+                ('call', 'h', [num(1)], False), P(v('x'))])
     # a matrix block inside a routine must not make the parameters unknown
     out.append([('define', 'm', ['p'], [('action', 'set', [('matrix_block', ('str', 'Candle'),
                                                           [('stage', (num(0), None), None, False)])]),
